@@ -139,6 +139,8 @@ def scoped_query_src(rng, focus=None):
 NS_OPS = {
     # namespace operations: plain Python, no beartype call; they are part of the *arguments* of later queries
     'DEFINE_LATER': "class LaterCls:\n    pass\nLaterCls.__module__ = 'vlib.hintenv'\nLATER = LaterCls()\n",
+    # the name exists already, bound to something that is no hint (a placeholder to be replaced by the class later)
+    'PLACEHOLDER_LATER': "LaterCls = 0\n",
     'REDEFINE_K': "KOLD = K()\nclass K:\n    tag = {n}\nK.__module__ = 'vlib.hintenv'\n",
 }
 INIT_K = "class K:\n    tag = 0\nK.__module__ = 'vlib.hintenv'\n"
@@ -389,7 +391,10 @@ def main():
             return steps
         for _ in range(n):
             r = rng.random()
-            if r < (.15 if family == 'forward' else .03) and 'DEFINE_LATER' not in ns_ops:
+            if r < .10 and family == 'forward' and not ns_ops:
+                ns_ops.append('PLACEHOLDER_LATER')
+                steps.append(('ns', NS_OPS['PLACEHOLDER_LATER']))
+            elif r < (.22 if family == 'forward' else .03) and 'DEFINE_LATER' not in ns_ops:
                 ns_ops.append('DEFINE_LATER')
                 steps.append(('ns', NS_OPS['DEFINE_LATER']))
             elif r < (.30 if family == 'redefine' else .06) and redefs < 3:
@@ -416,6 +421,16 @@ def main():
         # unresolved then resolved forward reference
         [('query', "ib(lambda: 1, lambda: \"LaterCls\", 'CONF0')"), ('ns', NS_OPS['DEFINE_LATER']),
          ('query', "ib(lambda: LATER, lambda: \"LaterCls\", 'CONF0')"), ('query', "call(lambda: list[\"LaterCls\"], lambda: [LATER], 'CONF0')")],
+        # a reference first resolved while its name is bound to a placeholder that is no hint, then to the class
+        [('ns', NS_OPS['PLACEHOLDER_LATER']), ('query', "call(lambda: \"LaterCls\", lambda: 1, 'CONF0')"),
+         ('query', "call(lambda: list[\"LaterCls\"], lambda: [1], 'CONF0')"), ('ns', NS_OPS['DEFINE_LATER']),
+         ('query', "call(lambda: \"LaterCls\", lambda: LATER, 'CONF0')"), ('query', "call(lambda: list[\"LaterCls\"], lambda: [LATER], 'CONF0')"),
+         ('query', "call(lambda: \"LaterCls\", lambda: 1, 'CONF0')")],
+        # long-lived callables decorated before the name exists; first called while the name is a placeholder, then
+        # after it became the class
+        [('ns', DEFINE_WF), ('ns', 'W = 0\n'), ('query', '_ans(lambda: _wf(1))'), ('query', '_ans(lambda: _wf2([1]))'),
+         ('query', '_ans(lambda: _wf3(None) is None)'), ('ns', DEFINE_W.format(n=1)), ('query', '_ans(lambda: _wf(W()))'),
+         ('query', '_ans(lambda: _wf2([W()]))'), ('query', '_ans(lambda: _wf3(W()) is not None)'), ('query', '_ans(lambda: _wf(1))')],
         # equal-but-not-identical literals and validators
         [('query', "ib(lambda: True, lambda: Literal[1], 'CONF0')"), ('query', "ib(lambda: 1, lambda: Literal[True], 'CONF0')"),
          ('query', "ib(lambda: 1.0, lambda: Annotated[object, IsEqual[1]], 'CONF0')"), ('query', "sub(lambda: Literal[1], lambda: Literal[True])"),
